@@ -48,6 +48,15 @@ func HC01_functionIDs() {
 // HC01_enumChoices: the composite literal listing the enum choices is well formed (no empty
 // element) and lists exactly the exported constants.
 func HC01_enumChoices() {
+	enumChoices("C01/enum-choices-literal-present", "C01/enum-choices-are-exactly-the-exported-constants-no-empty-element")
+}
+
+// HC15_enum: the random enum value is picked among the exported constants only.
+func HC15_enum() {
+	enumChoices("C15/enum-choices-literal-present", "C15/enum-value-is-picked-among-exactly-the-exported-constants")
+}
+
+func enumChoices(clausePresent, clauseExact string) {
 	target := types.NewPackage("example.com/mod/target", "target")
 	named := skelNamed(target, "E", types.Typ[types.Int])
 	n := 1 + vfChoice("n", vfParam("C01.members", 3))
@@ -68,7 +77,7 @@ func HC01_enumChoices() {
 	text := ctx.codeForEnum(e).Content
 	vfObserve("text", text)
 	open := strings.Index(text, "[...]E{")
-	vfAssert(open >= 0, "C01/enum-choices-literal-present")
+	vfAssert(open >= 0, clausePresent)
 	if open < 0 {
 		return
 	}
@@ -90,7 +99,7 @@ func HC01_enumChoices() {
 			ok = ok && elems[i] == exported[i]
 		}
 	}
-	vfAssert(ok, "C01/enum-choices-are-exactly-the-exported-constants-no-empty-element")
+	vfAssert(ok, clauseExact)
 }
 
 func c01Idents(text, prefix string) []string {
